@@ -15,9 +15,69 @@ pub struct Case {
     pub log: TextLog,
     /// block sizes to read the file with
     pub bss: Vec<u64>,
+    /// in-process twin: drive `SyslogProcessor` through the stage sequence of `exec_syslogprocessor` instead of
+    /// running the binary (cheap, so many more cases)
+    #[serde(default)]
+    pub inproc: bool,
+}
+
+/// read a plain text file through SyslogProcessor exactly like `exec_syslogprocessor` does and return, per message,
+/// (fileoffset_begin, bytes)
+pub fn inproc_messages(path: &str, bs: u64) -> Result<Option<Vec<(u64, Vec<u8>)>>, String> {
+    use s4lib::common::{FileType, FileTypeArchive, FileTypeTextEncoding, ResultS3};
+    use s4lib::readers::syslogprocessor::{FileProcessingResultBlockZero, SyslogProcessor};
+    let ft = FileType::Text { archival_type: FileTypeArchive::Normal, encoding_type: FileTypeTextEncoding::Utf8Ascii };
+    let tz = chrono::FixedOffset::east_opt(0).unwrap();
+    let mut sp = SyslogProcessor::new(path.to_string(), ft, bs, tz, None, None).map_err(|e| format!("SyslogProcessor::new: {}", e))?;
+    let _ = sp.process_stage0_valid_file_check();
+    if !matches!(sp.process_stage1_blockzero_analysis(), FileProcessingResultBlockZero::FileOk) {
+        return Ok(None);
+    }
+    if !matches!(sp.process_stage2_find_dt(&None), FileProcessingResultBlockZero::FileOk) {
+        return Ok(None);
+    }
+    let mut out = vec![];
+    let mut fo1: u64 = 0;
+    let mut first = true;
+    let mut last: Option<s4lib::data::sysline::SyslineP> = None;
+    loop {
+        match sp.find_sysline_between_datetime_filters(fo1) {
+            ResultS3::Found((fo, slp)) => {
+                out.push((slp.fileoffset_begin(), slp.verif_bytes()));
+                let is_last = sp.is_sysline_last(&slp);
+                fo1 = fo;
+                if first {
+                    first = false;
+                    if is_last {
+                        break;
+                    }
+                    sp.process_stage3_stream_syslines();
+                    last = Some(slp);
+                    continue;
+                }
+                if is_last {
+                    break;
+                }
+                if let Some(l) = last.take() {
+                    sp.drop_data_try(&l);
+                }
+                last = Some(slp);
+            }
+            ResultS3::Done => break,
+            ResultS3::Err(e) => return Err(format!("find_sysline_between_datetime_filters({}): {}", fo1, e)),
+        }
+        if out.len() > 100_000 {
+            return Err("runaway".into());
+        }
+    }
+    Ok(Some(out))
 }
 
 pub const SENTINEL: &str = "\u{1}<~SEP~>\u{2}";
+
+fn r2spans(r: &Rendered) -> &Vec<(usize, usize)> {
+    &r.spans
+}
 
 pub fn contains(h: &[u8], n: &[u8]) -> bool {
     h.windows(n.len()).any(|w| w == n)
@@ -43,7 +103,7 @@ impl Property for C02 {
         "C02"
     }
     fn rule(&self) -> String {
-        "case = generated text log (one of 10 timestamp notations, 0..40 messages, 0..3 continuation lines, byte classes ascii/utf8/binary incl. NUL, CR, 0x80-0xff, line lengths steered around multiples of the small block size, header lines, optional final newline) x 3 block sizes (65536, 64, generated 65..4096); oracle: stdout == file[first timestamped line..] (+\\n if missing) and, with a sentinel --separator, message boundaries == generator boundaries. non-trivial = >=2 messages and (a line crosses a block boundary at one of the sizes, or a multi-line message, or a non-ASCII/NUL byte); distinct = hash of (file bytes, block sizes). Files rejected by the block-zero heuristic (finding F6) are excluded by construction and counted under discarded_by_reason.".into()
+        "case = generated text log (one of 10 timestamp notations, 0..40 messages, 0..3 continuation lines, byte classes ascii/utf8/binary incl. NUL, CR, 0x80-0xff, line lengths steered around multiples of the small block size, header lines, optional final newline) x 3 block sizes (65536, 64, generated 65..4096); oracle: stdout == file[first timestamped line..] (+\\n if missing) and, with a sentinel --separator, message boundaries == generator boundaries; 80% of the cases run the in-process twin instead (SyslogProcessor driven through the stage sequence of exec_syslogprocessor incl. drop_data_try; every message's file offset and bytes must equal the generator's spans), 20% the real binary. non-trivial = >=2 messages and (a line crosses a block boundary at one of the sizes, or a multi-line message, or a non-ASCII/NUL byte); distinct = hash of (file bytes, block sizes). Files rejected by the block-zero heuristic (finding F6) are excluded by construction and counted under discarded_by_reason.".into()
     }
     fn assumptions(&self) -> Vec<String> {
         vec![
@@ -53,7 +113,10 @@ impl Property for C02 {
         ]
     }
     fn cases(&self, tier: Tier) -> u32 {
-        tier.pick(400, 8000)
+        tier.pick(2000, 40000)
+    }
+    fn inprocess(&self) -> bool {
+        true
     }
     fn strategy(&self, tier: Tier) -> BoxedStrategy<Case> {
         let max_msgs = tier.pick(40, 120);
@@ -67,7 +130,8 @@ impl Property for C02 {
                 let p = TextParams { max_msgs, steer_bs: steer, max_mult: 4, accept_bs: bss.clone(), ..TextParams::default() };
                 (text_log(p), Just(bss))
             })
-            .prop_map(|(log, bss)| Case { log, bss })
+            .prop_flat_map(|(log, bss)| (Just(log), Just(bss), prop::bool::weighted(0.8)))
+            .prop_map(|(log, bss, inproc)| Case { log, bss, inproc })
             .boxed()
     }
     fn probes(&self, _tier: Tier) -> Vec<(String, Case)> {
@@ -81,6 +145,7 @@ impl Property for C02 {
                 final_nl,
             },
             bss,
+            inproc: false,
         };
         let t0 = 1_577_934_245_123_456_000i64;
         vec![
@@ -120,7 +185,37 @@ impl Property for C02 {
             }
         }
         let mut evals = 0;
+        if case.inproc {
+            let path = f.to_string_lossy().to_string();
+            for &bs in &case.bss {
+                evals += 1;
+                let res = std::panic::catch_unwind(std::panic::AssertUnwindSafe(|| inproc_messages(&path, bs)));
+                let msgs = match res {
+                    Err(_) => return Outcome::fail("panic", format!("in-process bs={} tmpl={}: panic in SyslogProcessor", bs, case.log.tmpl().name)),
+                    Ok(Err(e)) => return Outcome::fail("error", format!("in-process bs={}: {}", bs, e)),
+                    Ok(Ok(None)) => {
+                        if case.log.msgs.is_empty() {
+                            continue;
+                        }
+                        return Outcome::fail("empty-output", format!("in-process bs={} tmpl={}: file predicted acceptable was rejected by block-zero analysis", bs, case.log.tmpl().name));
+                    }
+                    Ok(Ok(Some(m))) => m,
+                };
+                // boundaries and bytes must equal the generator's
+                if msgs.len() != r2spans(&r).len() {
+                    return Outcome::fail("boundaries", format!("in-process bs={} tmpl={}: {} messages, generator has {}", bs, case.log.tmpl().name, msgs.len(), r2spans(&r).len()));
+                }
+                for (k, ((fo, b), (a, e))) in msgs.iter().zip(r2spans(&r).iter()).enumerate() {
+                    if *fo != *a as u64 || b[..] != r.bytes[*a..*e] {
+                        return Outcome::fail("bytes", format!("in-process bs={} tmpl={}: message #{} at offset {} differs from generator span [{}..{}): {}", bs, case.log.tmpl().name, k, fo, a, e, diff_msg(b, &r.bytes[*a..*e])));
+                    }
+                }
+            }
+        }
         for &bs in &case.bss {
+            if case.inproc {
+                break;
+            }
             for sep in [false, true] {
                 let mut args = osargs(["--color", "never", "--blocksz"]);
                 args.push(bs.to_string().into());
@@ -152,6 +247,7 @@ impl Property for C02 {
         let nontrivial = nmsg >= 2 && (crosses || multi || nonascii);
         let mut o = Outcome::pass(nontrivial, fnv(&r.bytes) ^ hash_debug(&case.bss));
         o.evals = evals;
+        o = o.class(if case.inproc { "mode:in-process" } else { "mode:binary" });
         if crosses {
             o = o.class("line-crosses-block");
         }
